@@ -169,7 +169,7 @@ def tasks(tier, seed, selftest=False):
     T.append({"prop": PROP, "family": "B22", "label": "B22/sccd+allseeds/known-finding-witness", "timebox": 20, "seed": seed, "max_classes": 2,
               "start_at": {"tables": parse_bnet(wit)[1], "hist": {}}, "params": {"skeleton": ["sccd", "allseeds"]}})
     # published models (5-321 variables): after each complete strategy, z3 decides over all states that the reported
-    # fixed-point attractors are exactly the fixed points of the model; every minimal trap space carries exactly one seed,
+    # fixed-point attractors are exactly the fixed points of the model; every minimal trap space carries at least one seed (a fixed point exactly one),
     # seeds lie in their node's space (checks/c18_models.py)
     import glob
     import os
@@ -189,7 +189,7 @@ def main(tier, seed, t0, selftest=False):
                          bounds={"strategies": "build, expand_block(), expand_bfs(), expand_dfs(), expand_scc(), expand_attractor_seeds() with default settings",
                                  "families": "U2 exhaustive; D3, B21, P:MAA3+SW2 (5 variables: motif-avoidant core x switch) time-boxed (quick); U3 cubes, B22, CH4, S2C2, S1C3, reversed oracle order (thorough)",
                                  "cas unit": "compute_attractors_symbolic on the (un)expanded root with all states outside the child motifs as candidates, in a symbolic order, seeds_only symbolic; fine mode (U2, D3; U3 cubes in thorough)",
-                                 "published models": "150 smallest models (quick) / all 210 (thorough) x {build, attractor-seed, block, source-SCC, BFS(<=150 nodes)}: fixed-point attractors reported = all fixed points (z3 over all states), one seed per minimal trap space, seeds inside their node; runs over the time cap or incomplete are skipped and counted",
+                                 "published models": "150 smallest models (quick) / all 210 (thorough) x {build, attractor-seed, block, source-SCC, BFS(<=150 nodes)}: fixed-point attractors reported = all fixed points (z3 over all states), at least one seed per minimal trap space (exactly one per fixed point), seeds inside their node and not inside a successor; runs over the time cap or incomplete are skipped and counted",
                                  "outside": "n > 4 (7 for modular families) for the full one-to-one statement; on the published models complex attractors are not decided"},
                          assumptions=["contract stubs of DESIGN.md §8 validated on every representative",
                                       "compute_attractors_symbolic is a region oracle specified through REACH (its inside is decided by C12/C13)"])
